@@ -13,7 +13,7 @@ CHECKS = {
  "C02": ("other", "5.2", TECH_K + "; mono call-graph rule for single rounding; abstract interpretation of the f32 instances of the moderate stage and of round",
    "Partial. Same constant/table rules and result-shape post-conditions for f32, plus the single-rounding structure: no f64 value, float-to-float cast or f64-instantiated function is reachable from parse_float::<f32>. Does NOT decide the algorithms."),
  "C05": ("other", "5.5", TECH_K + "; abstract interpretation of both moderate stages for the early-out post-condition",
-   "Partial. Constants shared by name agree across configurations; configuration-specific tables and cut-offs each meet their definition; the early zero/infinity exits of Eisel-Lemire and Bellerophon are each implied by the exponent bound of their path (so the two siblings agree on them). Bit-equality of different algorithms is NOT decided."),
+   "Partial. Constants shared by name agree across configurations; configuration-specific tables and cut-offs each meet their definition; the early zero/infinity exits of Eisel-Lemire and Bellerophon are each implied by the exponent bound of their path (so the two siblings agree on them); both stages account for dropped digits, and the compact-only error window sits at the width round() shifts by. Bit-equality of different algorithms is NOT decided."),
  "C06": ("other", "5.6", TECH_K,
    "Partial. MAX_DIGITS >= longest exact midpoint expansion (computed exactly) and the big-integer capacity formula. Rounding of the truncated value is NOT decided."),
  "C07": ("other", "5.7", TECH_K,
